@@ -1,6 +1,7 @@
 (* C08 — Meek rule closure is sound and complete on patterns.  Statements: C08/Spec.v; model: C08/Model.v. *)
 From Coq Require Import List Arith Bool.
-From PG Require Import Base.ListSet Graph.MGraph C08.Model C08.Spec C08.Proofs C08.Bounded_n4 C08.Refuted C08.Acyclic C08.Cover C08.Fast C08.Bounded_n5 C08.Cover5 C08.Ext C08.ExtEss C08.Reflect C08.Chordal C08.ChordalOrient C08.ChordalComplete C08.Topo.
+From PG Require Import Base.ListSet Graph.MGraph C08.Model C08.Spec C08.Proofs C08.Bounded_n4 C08.Refuted C08.Acyclic C08.Cover C08.Fast C08.Bounded_n5 C08.Cover5 C08.Ext C08.ExtEss C08.Reflect C08.Chordal C08.ChordalOrient C08.ChordalComplete C08.Topo
+                       C08.MeekDer C08.MeekChain C08.MeekComplete C08.MeekCompleteAll.
 Import ListNotations.
 
 (* unbounded: the closure only turns undirected edges into directed ones (nodes, skeleton, directed edges kept) *)
@@ -166,3 +167,33 @@ Theorem vfree_extension_implies_chordal : forall t d, pwf t -> D t = [] ->
   consistent_ext t d -> (forall a c b, vstructb d a c b = false) -> chordal_g t.
 Proof. exact vfree_extension_gives_chordal. Qed.
 Print Assumptions vfree_extension_implies_chordal.
+
+(* ---- MEEK 1995 THEOREM 3 FOR ALL SIZES (C08/MeekDer.v, MeekChain.v, MeekComplete.v, MeekCompleteAll.v; with C04's derivation
+   system Der, Der_essential and C04/ReversibleDer.v by b-c04c05, which uses the PEO theory of C08/Chordal.v) ---- *)
+
+(* the directed edges of the closure of the pattern are exactly the derivable edges of C04's system Der d *)
+Theorem closure_directed_iff_Der : forall d, is_dag d -> forall a b,
+  has_d (meek_model (pattern_of d)) a b = true <-> Der d a b.
+Proof. exact closure_directed_iff_Der_all. Qed.
+Print Assumptions closure_directed_iff_Der.
+
+(* the closure is a chain graph: a -> b directed and b - c undirected give a -> c directed *)
+Theorem closure_chain_property : forall d, is_dag d -> forall a b c,
+  has_d (meek_model (pattern_of d)) a b = true -> has_u (meek_model (pattern_of d)) b c = true ->
+  has_d (meek_model (pattern_of d)) a c = true.
+Proof. exact closure_chain_all. Qed.
+Print Assumptions closure_chain_property.
+
+(* the directed edges of the closure are exactly the essential edges (in every Markov equivalent DAG; C04/Dag.v Props) *)
+Theorem closure_directed_iff_essential_all_sizes : forall d, is_dag d -> forall a b,
+  has_d (meek_model (pattern_of d)) a b = true <-> PG.C04.Dag.essential d a b.
+Proof. exact closure_directed_iff_essential. Qed.
+Print Assumptions closure_directed_iff_essential_all_sizes.
+
+(* COMPLETENESS ON PATTERNS, ALL SIZES: for EVERY DAG the closure of its pattern equals the essential graph computed by the
+   brute-force oracle (enumeration of the Markov equivalence class) *)
+Theorem meek_complete_on_patterns_all_sizes : forall d,
+  edges_ok (V d) (D d) = true -> B d = [] -> U d = [] -> C d = [] -> acyclicb d = true ->
+  pdag_eqb (meek_model (pattern_of d)) (essential_graph d) = true.
+Proof. exact meek_complete_every_dag. Qed.
+Print Assumptions meek_complete_on_patterns_all_sizes.
